@@ -1118,7 +1118,9 @@ class PolyhedralTermList(TermList):  # noqa: WPS338
                 is_refinement = False
                 break
             else:
-                if -res["fun"] <= b_temp:  # noqa: WPS309
+                # the optimum is computed in floating point: a constraint met with
+                # equality must not be reported as violated because of round-off
+                if -res["fun"] <= b_temp + 1e-6 * (1 + abs(b_temp)):  # noqa: WPS309, WPS432
                     logging.debug("Redundant constraint")
                 else:
                     is_refinement = False
